@@ -342,8 +342,8 @@ MUTANTS = [
     dict(name="reader does not re-check killed after waiting", file="strax/mailbox.py", only="read_killed",
          old="                if self.killed:\n                    self.log.debug(f\"Reader finds {self.name} killed\")\n                    raise MailboxKilled(self.killed_because)",
          new="                if False:\n                    raise MailboxKilled(self.killed_because)"),
-    dict(name="processor does not kill upstream", file="strax/processors/threaded_mailbox.py", only="failure",
-         old="                    m.kill(upstream=True, reason=reason)", new="                    m.kill(upstream=False, reason=reason)"),
+    dict(name="processor does not kill the other mailboxes", file="strax/processors/threaded_mailbox.py", only="failure",
+         old="                    m.kill(upstream=True, reason=reason)", new="                    pass"),
     dict(name="sender thread swallows exceptions", file="strax/mailbox.py", only="sender_exception,failure",
          old="        except Exception as e:\n            self.kill_from_exception(e)\n        else:",
          new="        except Exception as e:\n            self.close()\n        else:"),
